@@ -18,6 +18,8 @@ def run(ctx):
     res.rule("C12-R3w", "no in-range setter writes a reserved (or any foreign) bit (C11-R1 frame result)")
     res.rule("C12-R4", "swapEndian overloads are byte reversal for all values (integer overloads by G4, float overload by "
                         "its byte-assignment body)")
+    res.rule("C12-R5", "variable-length parts: the builders write every byte they advance over, so the big-endian length fields and pad bytes of the "
+                        "variable parts are always (re)written (C13-R3)")
     res.assumptions += ["the layout table /verif/spec/layout.json (written from the protocol formats) is the oracle",
                         "x86-64 little-endian target as compiled; in-range arguments"]
     res.not_decided += ["variable-length data (C13)", "correctness of the oracle table itself"]
@@ -45,6 +47,12 @@ def run(ctx):
                           o.detail + " — %d of them reserved by the layout" % len(hit))
                 continue
             res.check(o.ok, TAGS[o.tag], o.key, o.loc, o.detail)
+    # variable-length parts: length fields and data written by the builders (C13-R3: every advanced byte is written)
+    from rules import c13
+    sub = c13.run(ctx)
+    for o in sub.obligations:
+        if o["rule"] == "C13-R3":
+            res.check(o["ok"], "C12-R5", "builders:" + o["key"], o["loc"], o["detail"])
     res.extra["accessor_stats"] = stats
     res.floor("C12-R1", 250)
     res.floor("C12-R2", 30)
